@@ -124,13 +124,35 @@ def intStr : Int → Bytes
 /-- the bytes of "#int" -/
 def intKeyPrefix : Bytes := [35, 105, 110, 116]
 
-/-- `GetTableConstuctorKeyStr`: (key string, location reported) or none.  The three kinds of key live in
-three disjoint name spaces: "#int" + decimal digits, '"' + the string, "!" + the name. -/
+/-- the key text of a float key: equal VALUES give equal texts (Go: the shortest text that reads back as the same
+    float64, strconv.FormatFloat(v, 'g', -1, 64); here: the reduced fraction numerator "/" denominator of the
+    decimal numeral, or "?" + the text for a numeral `fltVal` does not read) -/
+def fltKey (t : Bytes) : Bytes :=
+  match fltVal t with
+  | some (n, d) => natBytes (n / Nat.gcd n d) ++ 47 :: natBytes (d / Nat.gcd n d)
+  | none => 63 :: t
+
+/-- the bytes of "#true", "#false", "#flt", "#op" -/
+def trueKey : Bytes := [35, 116, 114, 117, 101]
+def falseKey : Bytes := [35, 102, 97, 108, 115, 101]
+def fltKeyPrefix : Bytes := [35, 102, 108, 116]
+def opKeyPrefix : Bytes := [35, 111, 112]
+
+/-- `GetTableConstuctorKeyStr`: (key string, location reported) or none.  The kinds of key live in disjoint name
+    spaces: "#int" + decimal digits, '"' + the string, "!" + the name, "#true", "#false", "#flt" + the value's
+    text, and for a key under a unary operator "#op" + the operator's number + ":" + the key of the operand. -/
 def keyStr (k : Exp) (parent : Loc) : Option (Bytes × Loc) :=
   match k with
   | .int v _ => some (intKeyPrefix ++ intStr v, parent)
   | .str s l => some (34 :: s, l)
   | .name n l => some (33 :: n, l)
+  | .tru l => some (trueKey, l)
+  | .fls l => some (falseKey, l)
+  | .flt t l => some (fltKeyPrefix ++ fltKey t, l)
+  | .unop op e l =>
+    match keyStr e parent with
+    | some (s, _) => some (opKeyPrefix ++ natBytes op.toNat ++ 58 :: s, l)
+    | none => none
   | _ => none
 
 /-- type 5: every key whose string was already seen in this constructor -/
